@@ -300,7 +300,8 @@ func consumeRegexp(sr *utils.StringReader) string {
 		case '\\':
 			r = sr.Next()
 			switch r {
-			case 0:
+			case 0, '\n':
+				// an escaped line feed does not continue the regexp on the next line either
 				panic(errors.New("unterminated regexp"))
 			case utf8.RuneError:
 				panic(badToken(r))
